@@ -192,17 +192,24 @@ package bttest
 //@   property C16 C20
 //@   loop 1 invariant frameOld(heap("F:bigtablepb.Row.Families"), heap("T:*bigtablepb.Family"), heap("F:bigtablepb.Family.Columns"), heap("T:*bigtablepb.Column"), heap("T:*bigtablepb.Cell"))
 //@   loop 1 invariant rowOK(r)
+//@   loop 1 invariant rowDesc(r)
+//@   loop 1 invariant forall p *btpb.Column :: obj(p) <= obj(rules) ==> p.Cells == old(p.Cells)
 //@   loop 1 invariant forall a, b :: 0 <= a < len(r.Families) && 0 <= b < len(r.Families[a].Columns) && rules[r.Families[a].Name] == nil ==> r.Families[a].Columns[b].Cells == old(r.Families[a].Columns[b].Cells)
 //@   loop 1 invariant forall a, b :: idx1 < a < len(r.Families) && 0 <= b < len(r.Families[a].Columns) ==> r.Families[a].Columns[b].Cells == old(r.Families[a].Columns[b].Cells)
 //@   loop 1 invariant forall a, b :: 0 <= a < len(r.Families) && 0 <= b < len(r.Families[a].Columns) ==> len(r.Families[a].Columns[b].Cells) <= old(len(r.Families[a].Columns[b].Cells))
-//@   loop 1 invariant changed <==> (exists a, b :: 0 <= a <= idx1 && 0 <= b < len(r.Families[a].Columns) && len(r.Families[a].Columns[b].Cells) != old(len(r.Families[a].Columns[b].Cells)))
+//@   loop 1 invariant changed ==> (exists a, b :: 0 <= a <= idx1 && 0 <= b < len(r.Families[a].Columns) && len(r.Families[a].Columns[b].Cells) != old(len(r.Families[a].Columns[b].Cells)))
+//@   loop 1 invariant !changed ==> (forall a, b :: 0 <= a <= idx1 && 0 <= b < len(r.Families[a].Columns) ==> len(r.Families[a].Columns[b].Cells) == old(len(r.Families[a].Columns[b].Cells)))
 //@   loop 2 invariant frameOld(heap("F:bigtablepb.Row.Families"), heap("T:*bigtablepb.Family"), heap("F:bigtablepb.Family.Columns"), heap("T:*bigtablepb.Column"), heap("T:*bigtablepb.Cell"))
 //@   loop 2 invariant rowOK(r) && 0 <= idx1 + 1 < len(r.Families) && fam == r.Families[idx1 + 1] && gcRule != nil && gcRule == rules[fam.Name]
+//@   loop 2 invariant rowDesc(r)
+//@   loop 2 invariant forall p *btpb.Column :: obj(p) <= obj(rules) ==> p.Cells == old(p.Cells)
 //@   loop 2 invariant forall a, b :: 0 <= a < len(r.Families) && 0 <= b < len(r.Families[a].Columns) && rules[r.Families[a].Name] == nil ==> r.Families[a].Columns[b].Cells == old(r.Families[a].Columns[b].Cells)
 //@   loop 2 invariant forall a, b :: idx1 + 1 < a < len(r.Families) && 0 <= b < len(r.Families[a].Columns) ==> r.Families[a].Columns[b].Cells == old(r.Families[a].Columns[b].Cells)
 //@   loop 2 invariant forall b :: idx2 < b < len(fam.Columns) ==> fam.Columns[b].Cells == old(fam.Columns[b].Cells)
 //@   loop 2 invariant forall a, b :: 0 <= a < len(r.Families) && 0 <= b < len(r.Families[a].Columns) ==> len(r.Families[a].Columns[b].Cells) <= old(len(r.Families[a].Columns[b].Cells))
-//@   loop 2 invariant changed <==> ((exists a, b :: 0 <= a <= idx1 && 0 <= b < len(r.Families[a].Columns) && len(r.Families[a].Columns[b].Cells) != old(len(r.Families[a].Columns[b].Cells))) || (exists b :: 0 <= b <= idx2 && len(fam.Columns[b].Cells) != old(len(fam.Columns[b].Cells))))
+//@   loop 2 invariant changed ==> ((exists a, b :: 0 <= a <= idx1 && 0 <= b < len(r.Families[a].Columns) && len(r.Families[a].Columns[b].Cells) != old(len(r.Families[a].Columns[b].Cells))) || (exists b :: 0 <= b <= idx2 && len(fam.Columns[b].Cells) != old(len(fam.Columns[b].Cells))))
+//@   loop 2 invariant !changed ==> (forall a, b :: 0 <= a <= idx1 && 0 <= b < len(r.Families[a].Columns) ==> len(r.Families[a].Columns[b].Cells) == old(len(r.Families[a].Columns[b].Cells)))
+//@   loop 2 invariant !changed ==> (forall b :: 0 <= b <= idx2 ==> len(fam.Columns[b].Cells) == old(len(fam.Columns[b].Cells)))
 
 // ---------------------------------------------------------------------------------------------
 // Activity clocks (lock-free; atomic loads are modelled as arbitrary values written by other threads)
